@@ -113,8 +113,21 @@ func (n *node) Resolve(field *ggql.Field, args map[string]interface{}) (interfac
 // newGraph builds the data graph: S leaf values, S null-ness, E list lengths.
 // q.o -> o1 ; o1.o -> o1 (cycle) or nil ; q.l -> [o1, o2, nil?]
 func newGraph(log *[]string, maxList int) *node {
+	return newGraphWith(log, maxList, true)
+}
+
+// newGraphWith: symInts=false keeps the Int leaves concrete (for harnesses
+// that print responses: decimal formatting of a full-width symbolic integer
+// is value enumeration, DESIGN.md section 3.4).
+func newGraphWith(log *[]string, maxList int, symInts bool) *node {
+	n := int32(40)
 	mk := func(id, typ string) *node {
-		return &node{id: id, typ: typ, log: log, a: sym.Int32(id + ".a"), s: sym.String(id+".s", 1)}
+		n++
+		var a interface{} = n
+		if symInts {
+			a = sym.Int32(id + ".a")
+		}
+		return &node{id: id, typ: typ, log: log, a: a, s: sym.String(id+".s", 1)}
 	}
 	q := mk("q", "Query")
 	o1 := mk("o1", "Obj")
@@ -124,7 +137,11 @@ func newGraph(log *[]string, maxList int) *node {
 	q.lAlts = [][]*node{nil, {}, {o1}, {o2, nil}, {o1, o2, o1}}[:maxList+2]
 	o1.lAlts = [][]*node{{o2}}
 	o2.lAlts = [][]*node{{}}
-	q.ll = [][]interface{}{{sym.Int32("ll00")}, nil, {}}
+	if symInts {
+		q.ll = [][]interface{}{{sym.Int32("ll00")}, nil, {}}
+	} else {
+		q.ll = [][]interface{}{{int32(5)}, nil, {}}
+	}
 	return q
 }
 
